@@ -182,13 +182,13 @@ type scenario struct {
 }
 
 type scRun struct {
-	w      *world
-	plan   crashPlan
-	tgt    lcCfg
-	incs   int   // incarnations of the target started so far
-	recs   []*recorder // the target's incarnations, in order
-	seed   int64
-	dead   bool
+	w    *world
+	plan crashPlan
+	tgt  lcCfg
+	incs int         // incarnations of the target started so far
+	recs []*recorder // the target's incarnations, in order
+	seed int64
+	dead bool
 }
 
 func (s *scRun) startTarget() {
